@@ -15,6 +15,10 @@ def run(ctx):
     # above the clock, so what happens AFTER the clock reached inf is outside the model: this family is checked by
     # the arithmetic oracle on the implementation only
     machine_prop.run(ctx, [('timers', 60, 1500, {'allow_inf': True, 'till_p': 0.0})], MONITORS, model=False)
+    # times that are inexact in binary floating point (0.1, 0.7, 0.9 ...): a date must be hit EXACTLY (`at=date`),
+    # a delay must end at exactly `clock at the wait + d` (the same float expression); the model uses integers, so this
+    # family, too, is checked by the oracle on the implementation only
+    machine_prop.run(ctx, [('timers', 60, 1500, {'float_times': True})], MONITORS, model=False)
 
 
 def search(ctx):
